@@ -169,6 +169,24 @@ Example C02_set_text_satisfiable :
              = (r0, None).
 Proof. eexists. vm_compute. reflexivity. Qed.
 
+(* a text body given to the CONSTRUCTOR (any content_type / charset= / headerlist / subclass-default
+   combination): whenever the created response announces a charset, .text reads the text back, i.e. the
+   bytes are the text in the announced charset -- not in whatever the charset= argument said
+   (models the code repaired by fixes/C02-1) *)
+Theorem C02_ctor_text_readback : forall c a r t,
+  a_app a = None -> a_body a = Some (BText t) -> mk c a = Ok r ->
+  code_has_body (r_status r) = true -> truthy (charset_of (r_headers r)) = true ->
+  get_text c r = (r, Ok t).
+Proof. exact ctor_text_readback. Qed.
+Print Assumptions C02_ctor_text_readback.
+
+Example C02_ctor_text_satisfiable :
+  exists r, mk (mkCfg (Some (s2l "text/html")) (Some (s2l "UTF-8")) false (Some (s2l "UTF-8")))
+               (mkArgs (Some (BText [99; 97; 102; 233])) None (Some [(N_CT, s2l "text/plain; charset=latin-1")]) None None None
+                       (ChSome (s2l "utf-8"))) = Ok r
+            /\ truthy (charset_of (r_headers r)) = true /\ content r = [99; 97; 102; 233].
+Proof. eexists. vm_compute. repeat split. Qed.
+
 (* ---------------------------------------------------------------- statuses without a body *)
 (* created with a status line that starts with "1" or with 204 / 205 / 304: no header is added (so no
    Content-Type and no Content-Length) and the body is empty, whatever was passed as body, content_type
